@@ -199,3 +199,40 @@ func vpH_C31_add_sub_zero_threshold() {
 	vpAssert(ng0 == 0 && ngs == sign*2, "negative side")
 	vpReach("end")
 }
+
+// Resolution reduction on float histograms (the absolute-count path of reduceResolution): each target
+// bucket holds the sum of the source buckets it covers (small integer counts, exact sums).
+func vpH_C31_reduce_resolution_float() {
+	sp, idx := vpXLayoutZ("h")
+	vals := make([]float64, len(idx))
+	for i := range vals {
+		vals[i] = float64(1 + i)
+	}
+	steps := vpShape("steps", 1, 2)
+	first := vpShape("firstOffset", -3, 2) // shifts the layout so that negative and positive indexes are hit
+	if len(sp) > 0 {
+		sp[0].Offset += int32(first)
+	}
+	h := &FloatHistogram{Schema: int32(steps), Count: 50, Sum: 1, PositiveSpans: sp, PositiveBuckets: vals}
+	r := h.Copy()
+	vpAssert(r.ReduceResolution(0) == nil, "reduction succeeds")
+	vpAssert(r.Schema == 0, "target schema")
+	for q := -3; q <= 6; q++ {
+		want := 0.0
+		for j, k := range idx {
+			if (((k+first)-1)>>uint(steps))+1 == q {
+				want += vals[j]
+			}
+		}
+		got, ok := vpXValAt(r.PositiveSpans, r.PositiveBuckets, q)
+		vpAssert(ok, "result spans match its buckets")
+		vpObserve("got", got)
+		vpAssert(got == want, "each target bucket holds the sum of the source buckets it covers")
+	}
+	nb := 0
+	for _, s := range r.PositiveSpans {
+		nb += int(s.Length)
+	}
+	vpAssert(nb == len(r.PositiveBuckets), "result spans match its buckets")
+	vpReach("end")
+}
